@@ -201,6 +201,38 @@ class Runner(object):
             else:
                 o.force_updated_at(op[3])
             return None
+        if t == "find":
+            _, ph, limit, flt = op
+            o = self.obj(ph)
+            fn = self.filter_fn(flt)
+            kw = {} if limit is None else {"limit": limit}
+            if self.kind(ph) in ("File", "Section"):
+                r = o.find_sections(fn, **kw)
+            else:
+                r = o.find_sources(fn, **kw)
+            self.oracle = self.oracle_find(o, self.kind(ph), limit, fn)
+            return ("toks", [x.id for x in r])
+        if t == "parent":
+            _, ph, w = op
+            o = self.obj(ph)
+            if w == "PBlock":
+                x = o.parent_block
+                self.oracle = None
+            elif self.kind(ph) == "Section":
+                x = o.parent
+                self.oracle = self.oracle_parent("sections", o.id)
+            else:
+                x = o.parent_source
+                self.oracle = self.oracle_parent("sources", o.id)
+            return ("toks", [None if x is None else x.id])
+        if t == "referring":
+            _, ph, c = op
+            o = self.obj(ph)
+            attr = {"CBlocks": "referring_blocks", "CGroups": "referring_groups", "CDataArrays": "referring_data_arrays",
+                    "CTags": "referring_tags", "CMultiTags": "referring_multi_tags", "CSources": "referring_sources"}[c]
+            r = getattr(o, attr)
+            self.oracle = self.oracle_referring(o, self.kind(ph), c)
+            return ("toks", [x.id for x in r])
         if t in ("probe", "probe_link"):
             cont = getattr(self.obj(op[1]), CONT_ATTR[op[2]] if t == "probe" else LIST_ATTR[op[2]])
             items = list(cont)
@@ -235,7 +267,75 @@ class Runner(object):
             return 0
         raise RuntimeError("unknown op %r" % (op,))
 
+    # ---- model-free oracles for C13: plain recursion over the containers of fresh objects
+    def filter_fn(self, flt):
+        if flt[0] == "all":
+            return lambda x: True
+        if flt[0] == "name":
+            return lambda x: x.name == flt[1]
+        return lambda x: x.type == flt[1]
+
+    def oracle_find(self, o, kind, limit, fn):
+        attr = "sections" if kind in ("File", "Section") else "sources"
+        lim = 10 ** 9 if limit is None else limit
+        level = [o] if kind in ("Section", "Source") else None
+        out = []
+        depth = 0
+        if level is None:
+            level = list(getattr(o, attr))
+            depth = 1
+        while level and depth <= lim:
+            out += [x.id for x in level if fn(x)]
+            level = [c for x in level for c in getattr(x, attr)]
+            depth += 1
+        if kind in ("Section", "Source") and lim < 0:
+            out = [o.id] if fn(o) else []
+        return out
+
+    def oracle_parent(self, attr, eid):
+        """id of the entity whose container holds eid, None at top level"""
+        def rec(parent, items):
+            for x in items:
+                if x.id == eid:
+                    return (parent.id if parent is not None else None, True)
+                r = rec(x, getattr(x, attr))
+                if r[1]:
+                    return r
+            return (None, False)
+        if attr == "sections":
+            return [rec(None, self.f.sections)[0]]
+        for b in self.f.blocks:
+            r = rec(None, b.sources)
+            if r[1]:
+                return [r[0]]
+        return [None]
+
+    def oracle_referring(self, o, kind, c):
+        out = []
+
+        def all_sources(items):
+            for x in items:
+                yield x
+                for y in all_sources(x.sources):
+                    yield y
+        if kind == "Section":
+            for b in self.f.blocks:
+                cand = {"CBlocks": [b], "CGroups": list(b.groups), "CDataArrays": list(b.data_arrays), "CTags": list(b.tags),
+                        "CMultiTags": list(b.multi_tags), "CSources": list(all_sources(b.sources))}[c]
+                for x in cand:
+                    m = x.metadata
+                    if m is not None and m.id == o.id:
+                        out.append(x.id)
+        else:
+            b = o.parent_block
+            cand = {"CDataArrays": list(b.data_arrays), "CTags": list(b.tags), "CMultiTags": list(b.multi_tags)}[c]
+            for x in cand:
+                if o.id in [y.id for y in x.sources]:
+                    out.append(x.id)
+        return out
+
     def run_op(self, op):
+        self.oracle = "n/a"
         tid = None
         if op[0] in ("set_attr", "set_link", "force", "append", "remove") and op[1] < len(self.handles):
             tid = self.handles[op[1]][2]
@@ -257,7 +357,7 @@ class Runner(object):
                 if isinstance(i, str):
                     ids.add(i)
                 rt = [1, i]
-            res = ("ok", h) if probe_toks is None else ("toks", probe_toks)
+            res = ("ok", h) if probe_toks is None else ("toks", probe_toks, self.oracle)
         except Exception as exc:
             code = classify(exc, self.readonly)
             rt = [2, code]
@@ -327,7 +427,8 @@ class Gen(object):
             if op[1] not in self.dead:
                 return op
         w = dict(create=10, mtag=2, feature=2, lookup=3, lookup_link=1, delete=2, append=5, remove=2,
-                 set_link=3, set_attr=4, reopen=0.5, bad=1, set_auto=0.2, probe=1, probe_link=0.5, force=0)
+                 set_link=3, set_attr=4, reopen=0.5, bad=1, set_auto=0.2, probe=1, probe_link=0.5, force=0,
+                 find=0, parent=0, referring=0)
         w.update(self.profile.get("weights", {}))
         kinds = list(w)
         for _ in range(50):
@@ -461,6 +562,30 @@ class Gen(object):
             else:
                 v = rnd.choice(["some text", "éè", "", None, "x"])
             return ("set_attr", rnd.choice(hs), a, v)
+        if t == "find":
+            hs = self.live(["File", "Block", "Source", "Section"])
+            ph = rnd.choice(hs)
+            limit = rnd.choice([None, None, 0, 1, 2, 3, 5, -1])
+            r = rnd.random()
+            flt = ("all",) if r < 0.5 else (("name", self.name()) if r < 0.8 else ("type", rnd.choice(TYPES)))
+            return ("find", ph, limit, flt)
+        if t == "parent":
+            hs = self.live(["Source", "Section"])
+            if not hs:
+                return None
+            ph = rnd.choice(hs)
+            w = "PBlock" if (self.r.kind(ph) == "Source" and rnd.random() < 0.3) else "PParent"
+            return ("parent", ph, w)
+        if t == "referring":
+            hs = self.live(["Source", "Section"])
+            if not hs:
+                return None
+            ph = rnd.choice(hs)
+            if self.r.kind(ph) == "Section":
+                c = rnd.choice(["CBlocks", "CGroups", "CDataArrays", "CTags", "CMultiTags", "CSources"])
+            else:
+                c = rnd.choice(["CDataArrays", "CTags", "CMultiTags"])
+            return ("referring", ph, c)
         if t == "probe":
             parents = self.live(["File", "Block", "Source", "Section"])
             ph = rnd.choice(parents)
